@@ -56,6 +56,7 @@ type Exec struct {
 	noMerge    bool
 	wsCache    map[*ssa.Function]*WriteSet
 	precallSeen map[string]bool
+	loopOfPos  map[token.Pos]int
 	iterPrefix map[string]*Term
 	arrayFam   map[string]int
 }
@@ -1312,7 +1313,10 @@ func (ex *Exec) binop(st *State, op token.Token, a, b Val, xt, rt types.Type, po
 		h, _ := new(big.Int).SetString(hi, 10)
 		c := And(Le(BigLit(l), r), Le(r, BigLit(h)))
 		if c != True {
-			ex.oblige(st, "overflow", ex.fnPrefix+"#overflow", c, pos)
+			if pos.IsValid() {
+				ex.oblige(st, "overflow", ex.fnPrefix+"#overflow"+ex.loopTag(pos, ":"), c, pos)
+			}
+			// (synthetic arithmetic without a source position is the range-loop index increment, bounded by len)
 			st.Assume(c)
 		}
 	}
@@ -1547,7 +1551,7 @@ func (ex *Exec) convert(st *State, v Val, from, to types.Type, pos token.Pos) Va
 						incl = fl.Cmp(l) >= 0 && fh.Cmp(h) <= 0
 					}
 					if !incl {
-						ex.oblige(st, "overflow", ex.fnPrefix+"#overflow:conv", c, pos)
+						ex.oblige(st, "overflow", ex.fnPrefix+"#overflow:conv"+ex.loopTag(pos, "."), c, pos)
 						st.Assume(c)
 					}
 				}
@@ -2590,4 +2594,36 @@ func isCoinsLike(t types.Type) bool {
 		return qn == "github.com/cosmos/cosmos-sdk/types.Coins" || qn == "github.com/cosmos/cosmos-sdk/types.DecCoins"
 	}
 	return false
+}
+
+// loopTag names the innermost loop of the function under verification that contains the instruction at pos
+// ("" outside loops and for inlined callee code): overflow obligations are grouped per loop so that the
+// straight-line part of a function can be claimed independently of loops that still lack arithmetic invariants.
+func (ex *Exec) loopTag(pos token.Pos, sep string) string {
+	if ex.topFn == nil || !pos.IsValid() {
+		return ""
+	}
+	if ex.loopOfPos == nil {
+		ex.loopOfPos = map[token.Pos]int{}
+		size := map[int]int{}
+		li := ex.loops(ex.topFn)
+		for _, lp := range li.list {
+			size[lp.ordinal] = len(lp.body)
+		}
+		for _, lp := range li.list {
+			for b := range lp.body {
+				for _, in := range b.Instrs {
+					if p := in.Pos(); p.IsValid() {
+						if cur, ok := ex.loopOfPos[p]; !ok || size[lp.ordinal] < size[cur] {
+							ex.loopOfPos[p] = lp.ordinal
+						}
+					}
+				}
+			}
+		}
+	}
+	if n, ok := ex.loopOfPos[pos]; ok {
+		return fmt.Sprintf("%sloop%d", sep, n)
+	}
+	return ""
 }
